@@ -30,8 +30,8 @@ struct Case {
 }
 
 fn workload(seed: u64, thorough: bool) -> (Vec<DbDef>, Vec<Case>) {
-    let ndb = if thorough { 900 } else { 96 };
-    let per_db = 10;
+    let ndb = if thorough { 600 } else { 60 };
+    let per_db = 8;
     let mut dbs = Vec::new();
     let mut cases = Vec::new();
     let mut id = 0u64;
@@ -41,9 +41,9 @@ fn workload(seed: u64, thorough: bool) -> (Vec<DbDef>, Vec<Case>) {
         let shape = k % 6;
         let dbdef = match shape {
             0 => gen_db(&mut r, 3, 6),
-            1 | 2 => gen_db(&mut r, 2, 24),
-            3 => gen_db_sized(&mut r, 2, 30, 45),
-            _ => gen_db_sized(&mut r, 1, 120, 260),
+            1 | 2 => gen_db(&mut r, 2, 20),
+            3 => gen_db_sized(&mut r, 2, 20, 30),
+            _ => gen_db_sized(&mut r, 1, 100, 180),
         };
         for _ in 0..per_db {
             let cfg = match shape {
@@ -304,8 +304,14 @@ fn main() {
     }
     sum.notes.push(format!("configurations: {:?}", CONFIGS.iter().map(|(n, t, th)| format!("{} (PARALLEL_THRESHOLD={:?}, RAYON_NUM_THREADS={})", n, t, th)).collect::<Vec<_>>()));
     if args.only.is_none() {
-        for (k, cs) in &per_db {
-            let s = k % nshards;
+        // spread the work: heaviest databases first, each to the least loaded shard
+        let mut order: Vec<(&usize, &Vec<String>)> = per_db.iter().collect();
+        let weight = |k: &usize, cs: &Vec<String>| -> u64 { let n: u64 = dbs[*k].tables.iter().map(|t| t.rows.len() as u64).sum(); (n * n + 50) * cs.len() as u64 };
+        order.sort_by_key(|(k, cs)| std::cmp::Reverse(weight(k, cs)));
+        let mut load = vec![0u64; nshards];
+        for (k, cs) in order {
+            let s = (0..nshards).min_by_key(|i| load[*i]).unwrap();
+            load[s] += weight(k, cs);
             shards[s].push_str(&format!("Definition db{} : db := {}.\n", k, coq_db(&dbs[*k])));
             for (i, c) in cs.iter().enumerate() {
                 shards[s].push_str(&format!("Definition c{}_{} : Z * query * obs := {}.\n", k, i, c));
